@@ -268,7 +268,12 @@ pub fn render_set(ty: Ty, m: Menu, set: &[Sel], indent: usize, vars: &mut Vec<(&
         out.push_str(&pad);
         out.push_str("  ");
         if let Some(raw) = &s.raw {
+            // replaces the selection's own text; a sub-selection set (if kept) is still rendered
             out.push_str(raw);
+            if let (Some(ch), Some(cty)) = (&s.child, at.child) {
+                out.push(' ');
+                out.push_str(&render_set(cty, m, ch, indent + 1, vars));
+            }
             out.push('\n');
             continue;
         }
